@@ -241,7 +241,7 @@ def shard(seed, n, idx, quick):
 
 def run(ctx: RunContext) -> int:
     t0 = time.time()
-    n = ctx.scale(14, 190)
+    n = ctx.scale(20, 190)
     res = run_shards(shard, [(derive_seed(ctx.seed, i), n, i, ctx.quick) for i in range(16)])
     return conclude(ctx, res, RULE, ASSUME, t0)
 
